@@ -434,6 +434,9 @@ impl Prop for C20 {
     fn stubbed_components(&self) -> Vec<String> {
         vec!["C write/flush/read/seek/file callbacks".into()]
     }
+    fn prod_digest_comparable(&self) -> bool {
+        true
+    }
     fn runs(&self, tier: Tier) -> u64 {
         match tier {
             Tier::Quick => 24 + 12_000,
